@@ -14,7 +14,14 @@ import (
 	"golang.org/x/tools/go/packages"
 )
 
-const repoRoot = "/repo"
+// repoRoot is the tree under verification. GOVC_REPO points a sub-process of the thorough tier's
+// mutation corpus at a scratch copy; every registered command verifies /repo itself.
+var repoRoot = func() string {
+	if r := os.Getenv("GOVC_REPO"); r != "" {
+		return r
+	}
+	return "/repo"
+}()
 
 // Prog is the loaded program: typed ASTs of the target packages and all
 // workspace dependencies, plus their contracts.
